@@ -18,12 +18,17 @@ func (c *FnCtx) ioEOF() VIface {
 	return v.(VIface)
 }
 
+// foreignErr: errors produced by readers/writers are nil, sentinel values or of
+// types not constructed by larking itself (assumption, listed with the Read/Write contracts).
+func foreignErr(e VIface) string { return or(eq(e.Typ, "0"), lt("800000", e.Typ)) }
+
 func ifaceEq(a, b VIface) string { return and(eq(a.Typ, b.Typ), eq(a.Pay, b.Pay)) }
 
 // readInto models delivering n stream bytes of reader id into p[0:n].
-func (c *FnCtx) readInto(st *State, id string, p VSlice, n string) {
+func (c *FnCtx) readInto(st *State, id string, p VSlice, n string, err VIface) {
 	posMap := c.heapGet(st, "G$rd.pos", arrSort(sInt))
 	pos := c.define("rd.pos", sInt, sel(posMap, id))
+	c.rdEvents = append(c.rdEvents, rdEvent{reach: st.reach, id: id, n: n, errTyp: err.Typ, errPay: err.Pay, pos: pos})
 	c.assert(le("0", pos))
 	ms := mapSort(2, sInt)
 	E := c.heapGet(st, "E$uint8", ms)
@@ -36,17 +41,18 @@ func (c *FnCtx) readInto(st *State, id string, p VSlice, n string) {
 
 func registerIOModels() {
 	libModels["(io.Reader).Read"] = &libModel{
-		desc:   "Read(p) returns any 0 <= n <= len(p), possibly together with any error; p[0:n] receives the next n bytes of the reader's abstract stream rdS(r) at rdpos(r), which advances by n; nothing else changes. Termination obligations additionally assume ReaderProgress: len(p) > 0 && err == nil ==> n > 0",
+		desc:   "Read(p) returns any 0 <= n <= len(p), possibly together with any error; p[0:n] receives the next n bytes of the reader's abstract stream rdS(r) at rdpos(r), which advances by n; nothing else changes. the error is never of a type larking constructs itself (e.g. *protodelim.SizeTooLargeError). Termination obligations additionally assume ReaderProgress: len(p) > 0 && err == nil ==> n > 0",
 		writes: []string{"E$uint8", "G$rd.pos"},
 		apply: func(c *FnCtx, st *State, in ssa.Instruction, cc *ssa.CallCommon, args []Val) Val {
 			r := args[0].(VIface)
 			p := args[1].(VSlice)
 			id := c.define("rid", sInt, readerID(r))
 			n := c.declare("rd.n", sInt)
-			c.assert(and(le("0", n), le(n, p.Len)))
+			c.assume(st, and(le("0", n), le(n, p.Len)))
 			err := c.freshVal(st, types.Universe.Lookup("error").Type(), "rd.err").(VIface)
-			c.readInto(st, id, p, n)
-			c.assertOnly("ReaderProgress", implies(and(lt("0", p.Len), eq(err.Typ, "0")), lt("0", n)))
+			c.assert(foreignErr(err))
+			c.readInto(st, id, p, n, err)
+			c.assertOnly("ReaderProgress", implies(and(st.reach, lt("0", p.Len), eq(err.Typ, "0")), lt("0", n)))
 			return VTuple{E: []Val{VInt{n}, err}}
 		},
 	}
@@ -59,26 +65,28 @@ func registerIOModels() {
 			c.oblige(st, "nil", c.anchor(in), in.Pos(), not(eq(r.Typ, "0")), "reader passed to io.ReadFull is not nil", nil)
 			id := c.define("rid", sInt, readerID(r))
 			n := c.declare("rf.n", sInt)
-			c.assert(and(le("0", n), le(n, p.Len)))
+			c.assume(st, and(le("0", n), le(n, p.Len)))
 			err := c.freshVal(st, types.Universe.Lookup("error").Type(), "rf.err").(VIface)
+			c.assert(foreignErr(err))
 			eof := c.ioEOF()
-			c.assert(eq(eq(err.Typ, "0"), eq(n, p.Len)))
-			c.assert(implies(ifaceEq(err, eof), eq(n, "0")))
-			c.readInto(st, id, p, n)
+			c.assume(st, eq(eq(err.Typ, "0"), eq(n, p.Len)))
+			c.assume(st, implies(ifaceEq(err, eof), eq(n, "0")))
+			c.readInto(st, id, p, n, err)
 			return VTuple{E: []Val{VInt{n}, err}}
 		},
 	}
 	libModels["(io.Writer).Write"] = &libModel{
-		desc:   "Write(p) returns 0 <= n <= len(p) and n < len(p) ==> err != nil; the writer's ghost output wrout(w) is extended by p[0:n] (wrlen(w) advances by n); p is not modified",
-		writes: []string{"G$wr.out", "G$wr.len"},
+		desc:   "Write(p) returns 0 <= n <= len(p) and n < len(p) ==> err != nil; the writer's ghost output wrout(w) is extended by p[0:n] (wrlen(w) advances by n, wrcalls(w) by 1); p is not modified",
+		writes: []string{"G$wr."},
 		apply: func(c *FnCtx, st *State, in ssa.Instruction, cc *ssa.CallCommon, args []Val) Val {
 			w := args[0].(VIface)
 			p := args[1].(VSlice)
 			id := c.define("wid", sInt, readerID(w))
 			n := c.declare("wr.n", sInt)
-			c.assert(and(le("0", n), le(n, p.Len)))
+			c.assume(st, and(le("0", n), le(n, p.Len)))
 			err := c.freshVal(st, types.Universe.Lookup("error").Type(), "wr.err").(VIface)
-			c.assert(implies(lt(n, p.Len), not(eq(err.Typ, "0"))))
+			c.assert(foreignErr(err))
+			c.assume(st, implies(lt(n, p.Len), not(eq(err.Typ, "0"))))
 			lenMap := c.heapGet(st, "G$wr.len", arrSort(sInt))
 			outMap := c.heapGet(st, "G$wr.out", arrSort(sAI))
 			l := c.define("wr.len", sInt, sel(lenMap, id))
@@ -89,6 +97,8 @@ func registerIOModels() {
 				sel(sel(E, p.Base), plus(p.Off, minus(k, l))), sel(sel(outMap, id), k)))
 			c.heapSet(st, "G$wr.out", arrSort(sAI), sto(outMap, id, arr))
 			c.heapSet(st, "G$wr.len", arrSort(sInt), sto(lenMap, id, plus(l, n)))
+			callsMap := c.heapGet(st, "G$wr.calls", arrSort(sInt))
+			c.heapSet(st, "G$wr.calls", arrSort(sInt), sto(callsMap, id, plus(sel(callsMap, id), "1")))
 			return VTuple{E: []Val{VInt{n}, err}}
 		},
 	}
@@ -118,9 +128,9 @@ func registerIOModels() {
 				cases = append(cases, implies(and(allCont, le(b.Len, fmt.Sprint(j))), and(eq(n, num(-1)), eq(v, "0"))))
 				allCont = and(allCont, lt(fmt.Sprint(j), b.Len), le("128", at(j)))
 			}
-			c.assert(and(cases...))
-			c.assert(and(le("0", v), lt(v, pow2[64])))
-			c.assert(or(eq(n, num(-1)), eq(n, num(-3)), and(le("1", n), le(n, "10"))))
+			c.assume(st, and(cases...))
+			c.assume(st, and(le("0", v), lt(v, pow2[64])))
+			c.assume(st, or(eq(n, num(-1)), eq(n, num(-3)), and(le("1", n), le(n, "10"))))
 			return VTuple{E: []Val{VInt{v}, VInt{n}}}
 		},
 	}
@@ -132,7 +142,7 @@ func registerIOModels() {
 			v := args[1].(VInt).T
 			c.eng.needVarint = true
 			h := c.declare("av.h", sInt)
-			c.assert(and(le("1", h), le(h, "10")))
+			c.assume(st, and(le("1", h), le(h, "10")))
 			enc := c.declare("av.bytes", sAI)
 			var facts []string
 			for j := 0; j < 10; j++ {
@@ -145,7 +155,7 @@ func registerIOModels() {
 			facts = append(facts, eq(app("varintval", enc, "0", h), v))
 			// a single byte encodes exactly the values below 128
 			facts = append(facts, eq(eq(h, "1"), lt(v, "128")))
-			c.assert(and(facts...))
+			c.assume(st, and(facts...))
 			return c.execAppend(st, in, b, VStr{enc, "0", h})
 		},
 	}
@@ -198,9 +208,9 @@ func registerIOModels() {
 			allDigits := fmt.Sprintf("(forall ((%s Int)) (=> (and (<= 0 %s) (< %s %s)) (and (<= 48 (select %s (+ %s %s))) (<= (select %s (+ %s %s)) 57))))",
 				k, k, k, nd, s.Arr, doff, k, s.Arr, doff, k)
 			syntaxOK := c.define("parse.ok", sBool, and(le("1", nd), allDigits))
-			c.assert(implies(eq(err.Typ, "0"), syntaxOK))
+			c.assume(st, implies(eq(err.Typ, "0"), syntaxOK))
 			mag := app("decval", s.Arr, doff, nd)
-			c.assert(implies(and(syntaxOK, le(nd, "18")), and(eq(err.Typ, "0"), eq(v.T, ite(neg, app("-", mag), mag)))))
+			c.assume(st, implies(and(syntaxOK, le(nd, "18")), and(eq(err.Typ, "0"), eq(v.T, ite(neg, app("-", mag), mag)))))
 			return VTuple{E: []Val{v, err}}
 		}
 	}
@@ -225,7 +235,7 @@ func registerIOModels() {
 				pay := c.define("spf.byte", sInt, sel(sel(payM, va.Base), va.Off))
 				isByte := and(eq(va.Len, "1"), eq(typ, fmt.Sprint(c.eng.typeID(types.Typ[types.Uint8]))))
 				hex := func(d string) string { return ite(lt(d, "10"), plus("48", d), plus("87", d)) }
-				c.assert(implies(isByte, and(eq(res.Len, "3"), eq(strAt(res, "0"), "37"),
+				c.assume(st, implies(isByte, and(eq(res.Len, "3"), eq(strAt(res, "0"), "37"),
 					eq(strAt(res, "1"), hex(app("div", pay, "16"))), eq(strAt(res, "2"), hex(app("mod", pay, "16"))))))
 			} else {
 				c.abstracted["fmt.Sprintf (pure: result unconstrained)"]++
